@@ -79,8 +79,13 @@ impl Bind {
         self.bound_generics.iter()
     }
 
+    /// whether no generic is bound to anything but itself or the bottom type
     pub(crate) fn is_empty(&self) -> bool {
-        self.bound_generics.is_empty()
+        self.bound_generics.iter().all(|(k, v)| match v.as_ref() {
+            XType::XUnknown => true,
+            XType::XGeneric(g) => g == k,
+            _ => false,
+        })
     }
 }
 
@@ -142,7 +147,7 @@ impl XCompoundSpec {
             if let Some(bound) = bind.get(name) {
                 ret.push(bound.clone());
             } else {
-                ret.push(Arc::new(XType::XGeneric(*name)));
+                ret.push(X_UNKNOWN.clone());
             }
         }
         ret
@@ -255,7 +260,13 @@ impl XFuncSpec {
     }
 
     pub(crate) fn rtype(&self, bind: &Bind) -> Arc<XType> {
-        self.ret.clone().resolve_bind(bind, None)
+        let mut bind = bind.clone();
+        for g in self.generic_params.iter().flatten() {
+            bind.bound_generics
+                .entry(*g)
+                .or_insert_with(|| X_UNKNOWN.clone());
+        }
+        self.ret.clone().resolve_bind(&bind, None)
     }
 
     pub(crate) fn xtype(&self) -> Arc<XType> {
@@ -456,14 +467,38 @@ impl XType {
                 }
                 Some(bind)
             }
-            (Self::XGeneric(ref a), Self::XGeneric(ref b)) if a == b => Some(Bind::new()),
-            (_, Self::XUnknown) => Some(Bind::new()),
+            (_, Self::XUnknown) => {
+                let mut generics = vec![];
+                self.collect_generics(&mut generics);
+                Some(Bind::from_iter(
+                    generics.into_iter().map(|g| (g, X_UNKNOWN.clone())),
+                ))
+            }
             (Self::XGeneric(ref a), _) => Some(Bind::from([(*a, other.clone())])),
             (Self::XUnknown, _) => Some(Bind::new()),
 
             _ => None,
         }
     }
+    fn collect_generics(&self, out: &mut Vec<Identifier>) {
+        match self {
+            Self::XGeneric(g) => out.push(*g),
+            Self::XNative(_, types) | Self::Tuple(types) | Self::XTail(types) => {
+                types.iter().for_each(|t| t.collect_generics(out))
+            }
+            Self::Compound(_, _, bind) => bind.iter().for_each(|(_, t)| t.collect_generics(out)),
+            Self::XCallable(spec) => {
+                spec.param_types.iter().for_each(|t| t.collect_generics(out));
+                spec.return_type.collect_generics(out)
+            }
+            Self::XFunc(spec) => {
+                spec.params.iter().for_each(|p| p.type_.collect_generics(out));
+                spec.ret.collect_generics(out)
+            }
+            _ => {}
+        }
+    }
+
     pub(crate) fn resolve_bind(
         self: &Arc<Self>,
         bind: &Bind,
@@ -512,10 +547,12 @@ impl XType {
             Self::Compound(ct, spec, original_bind) => {
                 let mut new_bind = Bind::default();
                 for gen_name in spec.generic_names.iter(){
-                    new_bind.bound_generics.insert(*gen_name, 
-                        original_bind.get(gen_name)
-                        .unwrap() // todo is this safe?
-                        .resolve_bind(bind, tail));
+                    new_bind.bound_generics.insert(
+                        *gen_name,
+                        original_bind
+                            .get(gen_name)
+                            .map_or_else(|| X_UNKNOWN.clone(), |t| t.resolve_bind(bind, tail)),
+                    );
                 }
                 Self::Compound(*ct, spec.clone(), new_bind).into()
             },
@@ -560,7 +597,7 @@ impl XType {
                             .map(|n| b
                                 .get(&n.clone())
                                 .map(|t| t.to_string_with_interner(interner))
-                                .unwrap_or_else(|| interner.resolve(*n).unwrap().to_string()))
+                                .unwrap_or_else(|| "?".to_string()))
                             .join(", ")
                     )
                 }
